@@ -359,9 +359,43 @@ def setup(ctx, thorough):
         V.build(s)
 
 
+def file_class_history_part(ctx):
+    """The identity of a file input must not depend on the HISTORY of the persistent hash cache: the same file hashed
+    before as another file-format class (every ordered pair of classes, every 'who hashed it first' order, shared vs
+    fresh cache directory) must give the same hash / task checksum as in a session that never saw the other class."""
+    import itertools
+    from pydra.utils.hash import hash_function
+    from fileformats.generic import File, BinaryFile, FsObject
+    from fileformats.text import Csv
+    classes = [File, BinaryFile, FsObject, Csv]
+    base = Path(tempfile.mkdtemp(dir=ctx.scratch))
+    f = base / "data.csv"
+    f.write_text("a,b\n1,2\n")
+    n = 0
+    try:
+        alone = {}
+        for c in classes:
+            d = base / f"alone-{c.__name__}"
+            alone[c] = hash_function(c(f), persistent_cache=d)
+        for first, second in itertools.permutations(classes, 2):
+            d = base / f"hist-{first.__name__}-{second.__name__}"
+            h1 = hash_function(first(f), persistent_cache=d)
+            h2 = hash_function(second(f), persistent_cache=d)
+            n += 1
+            ctx.case(key=("filehist", first.__name__, second.__name__), nontrivial=True)
+            if h1 != alone[first] or h2 != alone[second]:
+                ctx.violation("file-hash-depends-on-cache-history", dict(part="filehist", first=first.__name__, second=second.__name__),
+                              f"{second.__name__}(data.csv) hashed after {first.__name__}(data.csv) in the same persistent cache gives {h2}; in a "
+                              f"session with a fresh persistent cache it gives {alone[second]} (first: {h1} vs {alone[first]})")
+    finally:
+        shutil.rmtree(base, ignore_errors=True)
+    ctx.coverage["file_class_history_pairs"] = n
+
+
 def run(ctx):
     from vt.par import pmap
     setup(ctx, ctx.thorough)
+    file_class_history_part(ctx)
     n = len(_BATCH)
     ctx.rule = ("every value of the C08 grammar with an order-insensitive container x every insertion/iteration order (seam), plus "
                 "scalars, arrays, nested sequences, files, task-valued inputs; pickle round trips of task and Job; both workers x two "
@@ -408,6 +442,14 @@ def replay(ctx, case):
     from vt.runner import Part
     setup(ctx, False)
     p = case["part"]
+    if p == "filehist":
+        part = Part(scratch=ctx.scratch)
+        part.scratch = ctx.scratch
+        part.violation = lambda sig, c, d: part.violations.append((sig, c, d))
+        part.case = lambda **k: None
+        file_class_history_part(part)
+        hits = [d for sig, c, d in part.violations if c.get("first") == case["first"] and c.get("second") == case["second"]]
+        return hits[0] if hits else None
     if p == "order":
         a1, a2 = case["orders"]
         o1 = outcome(lambda: checksum(V.build(case["spec"], a1, seam=True)))
